@@ -1018,7 +1018,12 @@ func (c *Ctx) chainGuarded(names []string, sameOnly map[*ssa.Function][]termEdge
 					continue
 				}
 				g := call.Call.StaticCallee()
-				if g == nil || len(call.Call.Args) != 1 || call.Call.Args[0] != ssa.Value(fn.Params[0]) || g.Signature.Results().Len() != 1 {
+				if g == nil || len(call.Call.Args) != 1 || g.Signature.Results().Len() != 1 {
+					continue
+				}
+				// called on the receiver - by the function itself, or by a predicate of the receiver whose outcome the
+				// hand-over is made behind (`o.takesShorthand()`, which asks the guard)
+				if c.M.CondPath(fn, cond, call.Call.Args[0]) != fn.Params[0].Name() {
 					continue
 				}
 				if b, isBasic := g.Signature.Results().At(0).Type().Underlying().(*types.Basic); !isBasic || b.Kind() != types.Bool {
@@ -1714,6 +1719,9 @@ func (c *Ctx) feedersGuarded(e termEdge) string {
 				if !c.guardSelectsLikeUnserialize(g) {
 					return ""
 				}
+				if !c.guardSharesWithUnserialize(fn, g, x.Value) {
+					return ""
+				}
 				guards = append(guards, c.M.Key(g))
 			case *ssa.Call:
 				passes := false
@@ -1757,7 +1765,7 @@ func (c *Ctx) feedersGuarded(e termEdge) string {
 	if len(guards) == 0 {
 		return ""
 	}
-	why := "E-DEFAULTGUARD: the values of the schema that " + c.M.Key(fn) + " puts into the map it unserializes from are stored only where " + strings.Join(guards, ", ") + " answered false for that value (a walk whose recursion either descends into its data or extends a list of SDK-typed entries behind a negative slices.Contains)"
+	why := "E-DEFAULTGUARD: the values of the schema that " + c.M.Key(fn) + " puts into the map it unserializes from are stored only where " + strings.Join(guards, ", ") + " answered false for that value (a walk whose recursion either descends into its data or extends a list of SDK-typed entries behind a negative slices.Contains; the value is worked out by a function that the walk calls for the objects it visits as well, and the walk asks the same predicate as Unserialize before it takes a value that is not a map)"
 	if len(callees) > 0 {
 		why += "; " + strings.Join(callees, ", ") + " stores into it only for struct fields that are neither pointers nor interfaces"
 	}
@@ -2055,6 +2063,124 @@ func (c *Ctx) memberTableLookups(fn *ssa.Function) (lookups []*ssa.Lookup, conve
 	return
 }
 
+// guardReach: what the guard reaches (same package, four levels), the data operations themselves left out.
+func (c *Ctx) guardReach(g *ssa.Function) map[*ssa.Function]bool {
+	reach := map[*ssa.Function]bool{g: true}
+	frontier := []*ssa.Function{g}
+	for depth := 0; depth < 4; depth++ {
+		var next []*ssa.Function
+		for _, f := range frontier {
+			for _, e := range c.M.Edges(f) {
+				if e.To.Pkg == g.Pkg && !reach[e.To] && len(e.To.Blocks) > 0 {
+					name := e.To.Name()
+					if name == "Unserialize" || name == "UnserializeType" || name == "Validate" || name == "Serialize" || compatName(name) == "ValidateCompatibility" {
+						continue // the data operations themselves are not part of the walk
+					}
+					reach[e.To] = true
+					next = append(next, e.To)
+				}
+			}
+		}
+		frontier = next
+	}
+	return reach
+}
+
+// guardSharesWithUnserialize: clauses (d) and (e) of E-DEFAULTGUARD. What the walk looks at must be what Unserialize
+// goes through - not a second description of it, which can leave a way out (two did: the single-property shorthand of a
+// value that is not a map, and the sub-object defaults a struct-mapped object fills in):
+//
+//	(d) the guarded value v is worked out by a function F of the receiver (a call result), and the walk calls the same F
+//	    for the unset properties of the objects it visits;
+//	(e) the predicate P behind which the receiver's Unserialize takes a value that is not a map (a bool method of the
+//	    receiver whose true outcome holds at the hand-over to the function that unserializes the lone value) is called
+//	    by the walk as well.
+func (c *Ctx) guardSharesWithUnserialize(fn *ssa.Function, g *ssa.Function, v ssa.Value) bool {
+	reach := c.guardReach(g)
+	calls := func(target *ssa.Function) bool {
+		for f := range reach {
+			for _, b := range f.Blocks {
+				for _, in := range b.Instrs {
+					if call, ok := in.(*ssa.Call); ok && core.StaticBody(&call.Call) == target {
+						return true
+					}
+				}
+			}
+		}
+		return false
+	}
+	// (d)
+	if mi, ok := v.(*ssa.MakeInterface); ok {
+		v = mi.X
+	}
+	producer, _, isCall := core.CallResult(v)
+	if !isCall {
+		return false
+	}
+	f := core.StaticBody(&producer.Call)
+	if f == nil || len(producer.Call.Args) == 0 || producer.Call.Args[0] != ssa.Value(fn.Params[0]) || !calls(f) {
+		return false
+	}
+	// (e)
+	if len(fn.Params) == 0 {
+		return false
+	}
+	recvT := fn.Params[0].Type()
+	for _, op := range c.M.Funcs {
+		if op.Name() != "Unserialize" || len(op.Params) == 0 || !types.Identical(op.Params[0].Type(), recvT) {
+			continue
+		}
+		for _, b := range op.Blocks {
+			for _, in := range b.Instrs {
+				call, ok := in.(*ssa.Call)
+				if !ok {
+					continue
+				}
+				// the hand-over of a value that is not a map: a same-receiver callee that is given the raw data and does
+				// not take it as a map (it is reached where Kind() != Map)
+				notMap := false
+				var predicates []*ssa.Function
+				for _, cond := range core.CondsAt(b) {
+					if bin, isBin := cond.V.(*ssa.BinOp); isBin && (bin.Op == token.NEQ) == cond.True {
+						if kc, isKind := bin.X.(*ssa.Call); isKind && reflectValueMethod(kc) == "Kind" {
+							if k, isConst := core.ConstInt(bin.Y); isConst && k == 21 { // reflect.Map
+								notMap = true
+							}
+						}
+					}
+					if pc, isCall := cond.V.(*ssa.Call); isCall && cond.True && cond.Via == nil {
+						if p := core.StaticBody(&pc.Call); p != nil && len(pc.Call.Args) == 1 && pc.Call.Args[0] == ssa.Value(op.Params[0]) {
+							predicates = append(predicates, p)
+						}
+					}
+				}
+				target := core.StaticBody(&call.Call)
+				if !notMap || target == nil || len(call.Call.Args) < 2 || call.Call.Args[0] != ssa.Value(op.Params[0]) {
+					continue
+				}
+				passesData := false
+				for _, a := range call.Call.Args[1:] {
+					if a == ssa.Value(op.Params[1]) {
+						passesData = true
+					}
+				}
+				if !passesData {
+					continue
+				}
+				if len(predicates) == 0 {
+					return false // the shorthand is taken behind a condition the walk cannot share
+				}
+				for _, p := range predicates {
+					if !calls(p) {
+						return false
+					}
+				}
+			}
+		}
+	}
+	return true
+}
+
 // guardSelectsLikeUnserialize: clause (c) of E-DEFAULTGUARD.
 func (c *Ctx) guardSelectsLikeUnserialize(g *ssa.Function) bool {
 	// the conversion functions of the one-of's Unserialize side
@@ -2084,25 +2210,7 @@ func (c *Ctx) guardSelectsLikeUnserialize(g *ssa.Function) bool {
 	if len(reference) == 0 {
 		return false
 	}
-	// what the guard reaches (same package, four levels)
-	reach := map[*ssa.Function]bool{g: true}
-	frontier := []*ssa.Function{g}
-	for depth := 0; depth < 4; depth++ {
-		var next []*ssa.Function
-		for _, f := range frontier {
-			for _, e := range c.M.Edges(f) {
-				if e.To.Pkg == g.Pkg && !reach[e.To] && len(e.To.Blocks) > 0 {
-					name := e.To.Name()
-					if name == "Unserialize" || name == "UnserializeType" || name == "Validate" || name == "Serialize" || compatName(name) == "ValidateCompatibility" {
-						continue // the data operations themselves are not part of the walk
-					}
-					reach[e.To] = true
-					next = append(next, e.To)
-				}
-			}
-		}
-		frontier = next
-	}
+	reach := c.guardReach(g)
 	found := false
 	for f := range reach {
 		lookups, convs := c.memberTableLookups(f)
